@@ -9,7 +9,7 @@ variable {ρ : Nat → Res}
 
 theorem Grow.addFunc (st : St) (f : FuncType) : Grow st.types (Elab.addFunc st f).1.types := by
   refine ⟨⟨rfl, fun _ _ h => h, ?_, fun _ _ h => h, fun _ x h => ⟨x, h, rfl, rfl⟩,
-    fun _ x _ h => ⟨x, h, rfl⟩, fun _ x _ h => ⟨x, h, rfl, rfl⟩⟩, ?_⟩
+    fun _ x _ h => ⟨x, h, rfl⟩, fun _ x _ h => ⟨x, h, rfl, rfl⟩⟩, ?_, fun _ _ h => h, fun _ _ h => h⟩
   · intro i x h
     exact getElem?_append_lt' _ _ _ _ h
   · simp [Elab.addFunc, Types.size]
